@@ -3,10 +3,16 @@ from __future__ import annotations
 import abc
 import dataclasses
 import math
+import sys
 import typing
 from typing import NamedTuple
 import unicodedata
 
+
+# Integers are unbounded in this language: lift the host's limit on the number of
+# digits in int <-> str conversions.
+if hasattr(sys, "set_int_max_str_digits"):
+    sys.set_int_max_str_digits(0)
 
 # Structural key of a value: equal keys <=> equal values (used by `ㄴ` and Dict)
 Key = typing.Hashable
